@@ -5,7 +5,15 @@ cd "$(dirname "$0")"
 export GOFLAGS=-mod=mod GOPROXY=off
 unset GOSUMDB GOTOOLCHAIN
 mkdir -p build evidence
-python3 -c "import sys; sys.path.insert(0,'lib'); import vcheck; rc,out=vcheck.coq_make(); print(out[-3000:]) if rc else print('coq make ok'); sys.exit(rc)"
+python3 - <<'PY'
+import sys, json
+sys.path.insert(0, "lib")
+import vcheck
+targets = ["props/%s.vo" % c["property_id"] for c in json.load(open("MANIFEST.json"))["checks"]]
+rc, out = vcheck.coq_make(targets)
+print(out[-3000:] if rc else "coq make ok: %d property targets" % len(targets))
+sys.exit(rc)
+PY
 # warm the Go build cache for the repository with and without the hook tag
 ( cd /repo && go build ./... && go build -tags verif ./... ) 2>&1 | tail -5
 # prebuild every harness binary (each check rebuilds incrementally anyway)
